@@ -62,6 +62,13 @@ def build_corpus(tier, rng):
     for nf in (12, 26, 27, 40):
         items.append(("wide", Item("E", [Variant("Wide%d" % nf, "tuple", [Field(wide_tys[q % 5]) for q in range(nf)]), Variant("Narrow", "tuple", [Field("u8")]),
                                         Variant("Unit", "unit")])))
+    # the same payloads however the source is PUNCTUATED: a one-field tuple variant written `One(u32,)` still yields the field, not a 1-tuple
+    for nv in (3, 5):
+        tc = Item("E", [Variant(n_, "tuple", [Field(t_) for t_ in tys_]) for n_, tys_ in
+                        (("One", ["u8"]), ("Two", ["String", "u8"]), ("Zero", []), ("OneS", ["String"]), ("Three", ["bool", "i32", "usize"]))[:nv]]
+                  + [Variant("Named", "named", [Field("u8", "a")]), Variant("Unit", "unit")])
+        tc.trailing_commas = True
+        items.append(("trailing-commas", tc))
     # lifetimes (EnumIs / EnumTryAs accept them)
     items.append(("lifetime", Item("E", [Variant("Borrowed", "tuple", [Field("&'l0 str"), Field("u8")]), Variant("Owned", "tuple", [Field("String")]),
                                         Variant("Nothing", "unit")], lifetimes=1)))
